@@ -232,6 +232,15 @@ def rand_group(rng, nreq):
             else:
                 p.append(s)
         x = rng.random()
+        if rng.random() < 0.18 and p:
+            # degenerate spellings the tree takes as text: an empty segment ("//"), "." / "..", an encoded slash -
+            # inserted before a segment or in place of one (never last: trailing slashes / dots are trimmed)
+            j = rng.randrange(len(p))
+            odd = rng.choice(["", "", "", ".", "..", "%2F", "x%2Fy"])
+            if rng.random() < 0.5 and j < len(p) - 1:
+                p[j] = odd
+            else:
+                p.insert(j, odd)
         if x < 0.15 and p:
             p[rng.randrange(len(p))] = rng.choice(LITS + ["zz"])
         elif x < 0.25 and p:
@@ -246,6 +255,8 @@ def rand_group(rng, nreq):
         elif x < 0.52 and p:
             # the first path segment written as a further host label
             h, p = h + [p[0]], p[1:]
+        while p and (p[-1] == "" or p[-1].endswith(".")):
+            p.pop()            # the tree trims trailing "/" and ".": that would be another spelling of a shorter URL
         m = d["m"] if rng.random() < 0.7 else rng.choice(["GET", "POST", "PUT"])
         key = (m, render(h, p))
         if key in rs:
@@ -376,7 +387,7 @@ def run(ctx):
     # non-vacuity: the model of the code before the two fixes must be refuted; the shadow class must be in the space.
     # The five TLC runs are independent and run side by side.
     nd = ndecl(2)
-    npairs, ntriples = (40, 90) if not T else (0, 2200)
+    npairs, ntriples = (30, 60) if not T else (0, 2000)
     picks = set()
     while len(picks) < npairs:
         picks.add(tuple(sorted(ctx.rng.sample(range(1, nd + 1), 2))))
@@ -425,7 +436,7 @@ def run(ctx):
     ctx.log("executed %d cases; %d real outcomes differ from the model's; %d in the known shadow class; %d blocks to validate"
             % (ncases, drift, nshadow, len(blocks)))
     missing = [c for c in ("none", "exact-literal", "param", "wild-tail", "wild-zero", "param+wild", "method-hidden", "overlap", "shadow",
-                           "winner-disabled", "host-shape") if not ctx.cov["input_classes"].get(c)]
+                           "winner-disabled", "host-shape", "empty-segment", "empty-segment-matched") if not ctx.cov["input_classes"].get(c)]
     if missing:
         raise Broken("generated cases do not cover the input classes %s (vacuous replay)" % missing)
     if drift:
